@@ -130,6 +130,99 @@ def gen_keydel_hist(g, hid, big=False):
     return sg.make_hist(hid, opts, ["t0", "t1", "t2"], steps)
 
 
+def gen_keyorder_hist(g, hid):
+    """Key order of the ordered scan x merge of row-sets: a table WITH a primary key whose INSERTs make
+    3 to 6 row-sets with irregular, overlapping key ranges (the pattern {1,4},{3},{2} and random ones,
+    not round-robin); after EVERY step the harness reads `select pk from t order by pk` (`kseq`), which
+    must be the sorted keys; then a forced compaction over the row-sets (the merge is written into a
+    new row-set), key-range DELETEs (counts), reopen, more inserts, on several block / row-set sizes."""
+    r = g.r
+    d = sg.TableDef("t0", [("a", "INT", True, True), ("b", "INT", False, False)])
+    opts = (r.choice([256 << 20, 1 << 20, 16384, 4096, 512]), r.choice([32, 64, 128, 1024, 16384]), r.choice([0, 1]), r.choice([1, 1, 0]))
+    g.count("keyorder:rowset=%d" % opts[0])
+    steps = [{"k": "create", "def": d, "sql": d.sql()}]
+    live = set()
+
+    def ins(ks):
+        ks = [k for k in ks if k not in live]
+        if not ks:
+            ks = [max(live) + 1 if live else 0]
+        live.update(ks)
+        rows = [(k, g.gen_val("INT", False)) for k in ks]
+        sql = "insert into t0 values %s" % ", ".join("(%s, %s)" % (sg.sql_lit(a, "INT"), sg.sql_lit(b, "INT")) for a, b in rows)
+        return {"k": "insert", "table": "t0", "rows": rows, "def": d, "sql": sql}
+
+    def irregular(nsets):
+        """key sets with irregular, overlapping ranges"""
+        form = r.random()
+        if form < 0.25:
+            # the minimal pattern {1,4},{3},{2} (the second / third input is the smaller child), scaled and shifted
+            m, o = r.choice([1, 1, 10, 100]), r.choice([0, 0, 7, 1000])
+            base = [[1, 4], [3], [2]] if r.random() < 0.5 else [[1, 5, 6], [4, 8], [2, 3, 7]]
+            sets = [[o + m * k for k in ks] for ks in base]
+            while len(sets) < nsets:
+                sets.append([o + m * r.choice([0, 9, 10, 11]) + len(sets)])
+            return sets
+        n = r.choice([12, 40, 150, 600])
+        keys = r.sample(range(-50, 4 * n), n)
+        # irregular assignment: runs of random length go to a random set (never round-robin)
+        sets = [[] for _ in range(nsets)]
+        keys.sort()
+        j = 0
+        while j < len(keys):
+            run = r.choice([1, 1, 2, 3, 7, 20])
+            sets[r.randrange(nsets)].extend(keys[j:j + run])
+            j += run
+        for x in sets:
+            if not x:
+                x.append(keys.pop(r.randrange(len(keys))) + 100000 + len(x))
+            r.shuffle(x)
+        return sets
+
+    def dele():
+        keys = sorted(live) or [0]
+        c = keys[int(r.random() * len(keys))] + r.choice([0, 0, 1])
+        form = r.random()
+        if form < 0.5:
+            op = r.choice(["ge", "gt", "lt", "le"])
+            p = ("cmp", 0, op, c)
+            sql = "delete from t0 where a %s %d" % (sg.OPS[op], c)
+        else:
+            hi = c + r.choice([1, 3, 20, 200])
+            p = ("and", ("cmp", 0, "ge", c), ("cmp", 0, "lt", hi))
+            sql = "delete from t0 where a >= %d and a < %d" % (c, hi)
+
+        def holds(q, k):
+            if q[0] == "and":
+                return holds(q[1], k) and holds(q[2], k)
+            return {"ge": k >= q[3], "gt": k > q[3], "lt": k < q[3], "le": k <= q[3]}[q[2]]
+        for k in [k for k in live if holds(p, k)]:
+            live.discard(k)
+        g.count("keyorder:delete-by-key-range")
+        return {"k": "delete", "table": "t0", "pred": p, "def": d, "sql": sql}
+
+    nsets = r.choice([3, 3, 4, 5, 6])
+    g.count("keyorder:rowsets=%d" % nsets)
+    for ks in irregular(nsets):
+        steps.append(ins(ks))
+    # sometimes a DELETE before the compaction (the merge then runs over delete vectors)
+    if r.random() < 0.3:
+        steps.append(dele())
+    steps.append({"k": "compact"})
+    for _ in range(r.randint(2, 5)):
+        x = r.random()
+        if x < 0.4:
+            steps.append(dele())
+        elif x < 0.55:
+            steps.append({"k": "reopen"})
+        elif x < 0.85:
+            for ks in irregular(r.choice([1, 2, 3])):
+                steps.append(ins(ks))
+        else:
+            steps.append({"k": "compact"})
+    return sg.make_hist(hid, opts, ["t0", "t1", "t2"], steps)
+
+
 def load_corpus():
     out = []
     for p in sorted(glob.glob(os.path.join(vlib.VERIF, "corpus", PROP, "*.json"))):
@@ -148,12 +241,16 @@ def run(ck):
     g = sg.Gen(ck.seed * 7919 + 7, "c07")
     hists = []
     for i in range(n):
-        if i % 4 == 2:
+        if i % 4 == 0:
+            # every fourth history: keyed table, 3-6 row-sets with irregular overlapping key ranges,
+            # ordered scan after every step, compaction over them, key-range deletes, reopen
+            hists.append(gen_keyorder_hist(g, i))
+        elif i % 4 == 2:
             # every fourth history: DELETE by key range over multi-block keyed row-sets (one in ten of
             # those with a > 8200-row INSERT and 16 KiB blocks)
             hists.append(gen_keydel_hist(g, i, big=(i % 40 == 2)))
         else:
-            hists.append(g.history(i, weights=WEIGHTS, bulk=(i % 8 == 0)))
+            hists.append(g.history(i, weights=WEIGHTS, bulk=(i % 8 == 1)))
     fixed = witnesses() + load_corpus()
     totals, samples = {}, []
     ck.log("running %d witness/corpus histories and %d generated histories" % (len(fixed), len(hists)))
@@ -171,13 +268,14 @@ def run(ck):
         "evaluations": len(hists) + len(fixed),
         "steps": totals.get("steps", 0),
         "distinct_nontrivial": distinct,
-        "rule": "generated histories over create/insert/delete/compact/vacuum/reopen x storage options; every fourth history is a keyed table (INT primary key) with row-sets of several blocks and DELETEs by KEY RANGE (pushed-down bound: the DELETE's scan seeks into the row-set carrying the row-handler column), count and contents compared with model and oracle; non-trivial = some table reached >= 2 row-sets AND a DELETE removed >= 1 row; distinct = distinct request lines",
+        "rule": "generated histories over create/insert/delete/compact/vacuum/reopen x storage options; after EVERY step the ordered scan `select pk from t order by pk` of every keyed table must return the keys in key order (with the bag equality: the sorted keys); every fourth history is a keyed table built from 3-6 INSERTs with irregular overlapping key ranges (incl. {1,4},{3},{2}), compacted, then key-range DELETEs / reopen; every fourth history is a keyed table (INT primary key) with row-sets of several blocks and DELETEs by KEY RANGE (pushed-down bound: the DELETE's scan seeks into the row-set carrying the row-handler column), count and contents compared with model and oracle; non-trivial = some table reached >= 2 row-sets AND a DELETE removed >= 1 row; distinct = distinct request lines",
         "samples": samples,
         "model_vs_impl": {"compared": totals.get("mi", 0), "disagree": totals.get("mi_bad", 0)},
         "impl_vs_oracle": {"compared": totals.get("io", 0), "disagree": totals.get("io_bad", 0)},
         "model_vs_oracle": {"compared": totals.get("mo", 0), "disagree": totals.get("mo_bad", 0)},
         "distribution": dict(g.dist, compaction_merges=totals.get("merges", 0), reopens=totals.get("reopens", 0),
-                             max_rowsets_per_table=totals.get("max_rowsets", 0)),
+                             max_rowsets_per_table=totals.get("max_rowsets", 0),
+                             ordered_scans_of_keyed_tables_checked=totals.get("kseq_checked", 0)),
         "witnesses_replayed": [h["expect_sig"] for h in fixed if h.get("expect_sig")],
     })
     return ck.finish(level="proof", trusted_base=[
